@@ -28,7 +28,7 @@ M32 = 0xFFFFFFFF
 
 _OPS = {ast.Add: "+", ast.Sub: "-", ast.Mult: "*", ast.FloorDiv: "//", ast.Mod: "%", ast.Pow: "**", ast.LShift: "<<",
         ast.RShift: ">>", ast.BitOr: "|", ast.BitAnd: "&", ast.BitXor: "^", ast.Div: "/", ast.MatMult: "@"}
-_COMM = {"+", "*", "|", "&", "^"}
+_COMM = {"*", "|", "&", "^"}      # "+" is not sorted: it may be a (non-commutative) concatenation
 
 
 def C(v):
@@ -496,6 +496,11 @@ class Terms(object):
                     ok, v = ctx.fold.try_eval(init.defaults[p], init.mod, {})
                     b[p] = C(v) if ok else ("p", "default:" + p)
             return ("new", init.cls.qualname, tuple(sorted(b.items())))
+        # loop.run_in_executor(None, fn, *args)  ==  fn(*args)   (the async files' way of calling blocking helpers)
+        if isinstance(f, ast.Attribute) and f.attr == "run_in_executor" and len(e.args) >= 2 and isinstance(e.args[0], ast.Constant) and e.args[0].value is None and not e.keywords:
+            syn = ast.Call(func=e.args[1], args=list(e.args[2:]), keywords=[])
+            ast.copy_location(syn, e)
+            return self._call(func, node, syn, env, depth)
         # method call on a term
         if isinstance(f, ast.Attribute):
             recv = self.term(func, node, f.value, env, depth)
@@ -559,6 +564,11 @@ class Terms(object):
         from .roles import reaches_io
         if callee in reaches_io(self.ctx) or self.ctx.modsets.get(callee):
             return False      # functions with I/O or side effects stay opaque calls
+        for cs in self.ctx.cg.sites.get(callee, []):
+            if cs.ext and cs.ext.split(".")[0] in ("os", "socket", "time", "select", "asyncio", "io", "shutil", "subprocess"):
+                return False  # reads the environment: not a function of its arguments
+            if cs.ext in ("builtins.open", "builtins.input", "builtins.print"):
+                return False
         n = nret = 0
         for x in walk_own(callee.node):
             if isinstance(x, (ast.For, ast.While, ast.AsyncFor, ast.Try, ast.With, ast.AsyncWith, ast.Yield, ast.YieldFrom)):
